@@ -267,4 +267,258 @@ class ValidateNonFungible(Job):
         return out
 
 
-JOBS["C37"] = [ValidateFungible(), ValidFungible(), ValidateNonFungible()]
+def general_sets_v(d, R, ak, A):
+    return EnumV("ManifestResourceConstraint", 5, {5: [StructV("GeneralResourceConstraint", [
+        _idset(R), lower_v(d["lk"], d["lv"]), upper_v(d["uk"], d["uv"]),
+        EnumV("AllowedIds", ak, {0: [_idset(A)], 1: []})])]})
+
+
+class _GeneralNf(Job):
+    """Shared plumbing of the two jobs on General constraints with id sets. A case fixes the set sizes (nr required ids,
+    allow-list kind ak: 0 = list of na ids / 1 = any, ni balance ids); ids and bounds are symbolic."""
+    env_overrides = ENV
+    query_timeout_s = 90
+
+    def _ids(self, d, pfx, n):
+        return [lit(d["%s%d" % (pfx, j)]) for j in range(n)]
+
+    def _inputs(self, sets):
+        d = {k: z3.Int(k) for k in ("lk", "lv", "uk", "uv")}
+        pre = [d["lk"] >= 0, d["lk"] <= 1, d["uk"] >= 0, d["uk"] <= 1, d["lv"] >= I192_LO, d["lv"] <= I192_HI,
+               d["uv"] >= I192_LO, d["uv"] <= I192_HI]
+        for pfx, n in sets:
+            for j in range(n):
+                d["%s%d" % (pfx, j)] = z3.Int("%s%d" % (pfx, j))
+                pre += [d["%s%d" % (pfx, j)] >= 0, d["%s%d" % (pfx, j)] <= 50]
+                for j2 in range(j):
+                    pre.append(d["%s%d" % (pfx, j)] != d["%s%d" % (pfx, j2)])
+        return d, pre
+
+    def _grc_args(self, vals):
+        c = self.case
+        R = [vals["r%d" % j] for j in range(c["nr"])]
+        A = [vals["a%d" % j] for j in range(c["na"])]
+        return [vals["lk"], vals["lv"], vals["uk"], vals["uv"], len(R)] + R + [c["ak"], len(A)] + A
+
+    @staticmethod
+    def _subset(X, Y):
+        return z3.And([z3.Or([x == y for y in Y]) if Y else z3.BoolVal(False) for x in X]) if X else z3.BoolVal(True)
+
+    def _rand_sets(self, rng, d, sets):
+        pool = rng.sample(range(1, 12), 8)
+        for pfx, n in sets:
+            ids = rng.sample(pool[:5], n) if n <= 5 else pool[:n]
+            for j in range(n):
+                d["%s%d" % (pfx, j)] = ids[j]
+
+
+class GeneralValidNonFungible(_GeneralNf):
+    case_keys = ("nr", "ak", "na")
+
+    def __init__(self):
+        self.name = "c37m::general_resource_constraint_is_valid_for_non_fungible_use"
+        self.what = ("ManifestResourceConstraint::is_valid_for_non_fungible_use on the General form with id sets (<= 2 "
+                     "required ids, allow-list Any or <= 3 ids, any lower / upper bound): a constraint declared valid is "
+                     "satisfiable by some set of ids (an integer count n with max(|required|, lower) <= n <= min(upper, "
+                     "|allow-list|) exists and required is inside the allow-list); and valid exactly when both bounds are "
+                     "non-negative whole numbers, lower <= upper, |required| <= upper, lower <= |allow-list| and required "
+                     "is a subset of the allow-list")
+        self.cover_labels = ["valid", "invalid", "valid with allow-list and required id"]
+
+    def cases(self, tier):
+        out = [{"nr": nr, "ak": 1, "na": 0} for nr in (0, 1, 2)]
+        out += [{"nr": nr, "ak": 0, "na": na} for nr in (0, 1, 2) for na in (0, 1, 2, 3)]
+        return out
+
+    def locate(self, prog):
+        return find_function(prog, FILE, "is_valid_for_non_fungible_use", param_types=["&ManifestResourceConstraint"])
+
+    def inputs(self):
+        return self._inputs((("r", self.case["nr"]), ("a", self.case["na"])))
+
+    def args(self, inp):
+        d = {k: lit(v) for k, v in inp.items()}
+        return [const_ref("&ManifestResourceConstraint", general_sets_v(
+            d, self._ids(d, "r", self.case["nr"]), self.case["ak"], self._ids(d, "a", self.case["na"])))]
+
+    def extract(self, v):
+        return {"val": z3.If(v.term, 1, 0)}
+
+    def native(self, nat, vals):
+        t = nat.call("grc_valid_nf", *self._grc_args(vals)).split()
+        if t[0] == "panic":
+            return {"panic": True, "msg": " ".join(t[1:])}
+        return {"panic": False, "val": int(t[1])}
+
+    def post(self, inp, res):
+        d = {k: lit(v) for k, v in inp.items()}
+        c = self.case
+        R, A = self._ids(d, "r", c["nr"]), self._ids(d, "a", c["na"])
+        valid = lit(res["val"]) == 1
+        nr, na = c["nr"], c["na"]
+        # smallest / largest whole id count the bounds admit (in ids, not attos)
+        lo_n = z3.If(d["lk"] == 0, 1, z3.If(d["lv"] <= 0, 0, (d["lv"] + E18 - 1) / E18))
+        n_min = z3.If(lo_n >= nr, lo_n, nr)
+        up_n = z3.If(d["uk"] == 1, 10 ** 60, z3.If(d["uv"] < 0, -1, d["uv"] / E18))
+        n_max = up_n if c["ak"] == 1 else z3.If(up_n <= na, up_n, na)
+        sub = self._subset(R, A) if c["ak"] == 0 else z3.BoolVal(True)
+        satisfiable = z3.And(n_min <= n_max, sub)
+        whole = lambda k, v, unb: z3.Or(k == unb, z3.And(v >= 0, v % E18 == 0))
+        lo_eq = z3.If(d["lk"] == 0, 1, d["lv"])
+        up_eq = z3.If(d["uk"] == 0, d["uv"], I192_HI)
+        spec = z3.And(whole(d["lk"], d["lv"], 0), whole(d["uk"], d["uv"], 1), lo_eq <= up_eq, nr * E18 <= up_eq, sub,
+                      z3.BoolVal(True) if c["ak"] == 1 else lo_eq <= na * E18)
+        return [("a constraint declared valid for non-fungible use is satisfiable by some id set", z3.Implies(valid, satisfiable)),
+                ("valid exactly when the bounds are whole, overlap and are compatible with the id sets", valid == spec)]
+
+    def covers(self, inp, res):
+        c = self.case
+        v = lit(res["val"]) == 1
+        return [("valid", v), ("invalid", z3.Not(v)),
+                ("valid with allow-list and required id", z3.And(v, c["ak"] == 0, c["nr"] > 0))]
+
+    def vectors(self, rng):
+        out = []
+        for _ in range(40):
+            c = rng.choice(self.cases("quick"))
+            d = dict(c)
+            d.update({"lk": rng.randrange(2), "lv": rng.choice([0, E18, 2 * E18, E18 // 2, -E18, 1]),
+                      "uk": rng.randrange(2), "uv": rng.choice([0, E18, 2 * E18, 3 * E18, E18 // 2, 1, -E18])})
+            pool = rng.sample(range(1, 12), 6)
+            A = pool[:c["na"]]
+            R = (A + pool[3:])[:c["nr"]] if rng.random() < 0.6 else rng.sample(pool, c["nr"])
+            for j in range(c["nr"]):
+                d["r%d" % j] = R[j]
+            for j in range(c["na"]):
+                d["a%d" % j] = A[j]
+            out.append(d)
+        return out
+
+
+class GeneralValidateNonFungible(_GeneralNf):
+    case_keys = ("nr", "ak", "na", "ni")
+
+    def __init__(self):
+        self.name = "c37m::general_resource_constraint_validate_non_fungible"
+        self.what = ("ManifestResourceConstraint::validate_non_fungible on the General form with id sets (<= 2 required "
+                     "ids, allow-list Any or <= 2 ids, balance of <= 3 ids, any bounds): accepted exactly when the count "
+                     "lies within the bounds, every required id is present and (with an allow-list) every id is allowed")
+        self.cover_labels = ["accepted", "rejected", "rejected: id outside allow-list", "rejected: required id missing"]
+
+    def cases(self, tier):
+        if tier == "quick":
+            return [{"nr": nr, "ak": ak, "na": na, "ni": ni} for nr in (0, 1) for (ak, na) in ((1, 0), (0, 1), (0, 2))
+                    for ni in (0, 1, 2)]
+        return [{"nr": nr, "ak": ak, "na": na, "ni": ni} for nr in (0, 1, 2)
+                for (ak, na) in ((1, 0), (0, 0), (0, 1), (0, 2)) for ni in (0, 1, 2, 3)]
+
+    def locate(self, prog):
+        return find_function(prog, FILE, "validate_non_fungible",
+                             param_types=["ManifestResourceConstraint", "&IndexSet<NonFungibleLocalId>"])
+
+    def inputs(self):
+        c = self.case
+        return self._inputs((("r", c["nr"]), ("a", c["na"]), ("i", c["ni"])))
+
+    def args(self, inp):
+        d = {k: lit(v) for k, v in inp.items()}
+        c = self.case
+        return [general_sets_v(d, self._ids(d, "r", c["nr"]), c["ak"], self._ids(d, "a", c["na"])),
+                const_ref("&IndexSet<NonFungibleLocalId>", _idset(self._ids(d, "i", c["ni"])))]
+
+    def extract(self, v):
+        return {"ok": v.discr == 0}
+
+    def native(self, nat, vals):
+        I = [vals["i%d" % j] for j in range(self.case["ni"])]
+        return parse_ok(nat.call("grc_nf", *(self._grc_args(vals) + [len(I)] + I)))
+
+    def post(self, inp, res):
+        d = {k: lit(v) for k, v in inp.items()}
+        c = self.case
+        R, A, I = self._ids(d, "r", c["nr"]), self._ids(d, "a", c["na"]), self._ids(d, "i", c["ni"])
+        n = c["ni"]
+        lower_ok = z3.If(d["lk"] == 0, z3.BoolVal(n > 0), d["lv"] <= n * E18)
+        upper_ok = z3.If(d["uk"] == 1, True, n * E18 <= d["uv"])
+        allowed = z3.BoolVal(True) if c["ak"] == 1 else self._subset(I, A)
+        spec = z3.And(lower_ok, upper_ok, self._subset(R, I), allowed)
+        return [("accepted exactly when count, required ids and allow-list are all satisfied", lit(res["ok"]) == spec)]
+
+    def covers(self, inp, res):
+        d = {k: lit(v) for k, v in inp.items()}
+        c = self.case
+        ok = lit(res["ok"])
+        R, A, I = self._ids(d, "r", c["nr"]), self._ids(d, "a", c["na"]), self._ids(d, "i", c["ni"])
+        n = c["ni"]
+        in_bounds = z3.And(z3.If(d["lk"] == 0, z3.BoolVal(n > 0), d["lv"] <= n * E18), z3.If(d["uk"] == 1, True, n * E18 <= d["uv"]))
+        return [("accepted", z3.And(ok, n > 0)), ("rejected", z3.Not(ok)),
+                ("rejected: id outside allow-list", z3.And(z3.Not(ok), in_bounds, self._subset(R, I), c["ak"] == 0)),
+                ("rejected: required id missing", z3.And(z3.Not(ok), in_bounds, c["nr"] > 0))]
+
+    def vectors(self, rng):
+        out = []
+        for _ in range(40):
+            c = rng.choice(self.cases("quick"))
+            d = dict(c)
+            d.update({"lk": rng.randrange(2), "lv": rng.choice([0, E18, 2 * E18, E18 // 2]),
+                      "uk": rng.randrange(2), "uv": rng.choice([0, E18, 2 * E18, 3 * E18, E18 // 2])})
+            pool = rng.sample(range(1, 12), 6)
+            A = pool[:c["na"]]
+            I = pool[:c["ni"]] if rng.random() < 0.6 else rng.sample(pool, c["ni"])
+            R = I[:c["nr"]] if (rng.random() < 0.6 and len(I) >= c["nr"]) else rng.sample(pool, c["nr"])
+            for pfx, ids in (("r", R), ("a", A), ("i", I)):
+                for j, x in enumerate(ids):
+                    d["%s%d" % (pfx, j)] = x
+            out.append(d)
+        return out
+
+
+class ValidNonFungibleSimple(Job):
+    env_overrides = ENV
+    query_timeout_s = 60
+
+    def __init__(self):
+        self.name = "c37m::manifest_resource_constraint_is_valid_for_non_fungible_use"
+        self.what = ("ManifestResourceConstraint::is_valid_for_non_fungible_use for the non-General forms: amount forms are "
+                     "valid exactly when the amount is a non-negative whole number, the others always")
+        self.cover_labels = ["valid amount", "fractional amount invalid"]
+
+    def locate(self, prog):
+        return find_function(prog, FILE, "is_valid_for_non_fungible_use", param_types=["&ManifestResourceConstraint"])
+
+    def inputs(self):
+        d = {k: z3.Int(k) for k in BASE}
+        pre = base_pre(d) + [d["variant"] <= 4]
+        return d, pre
+
+    def args(self, inp):
+        d = {k: lit(v) for k, v in inp.items()}
+        return [const_ref("&ManifestResourceConstraint", constraint_v(d, []))]
+
+    def extract(self, v):
+        return {"val": z3.If(v.term, 1, 0)}
+
+    def native(self, nat, vals):
+        t = nat.call("mrc_valid_nf", *native_base(vals, [])).split()
+        if t[0] == "panic":
+            return {"panic": True, "msg": " ".join(t[1:])}
+        return {"panic": False, "val": int(t[1])}
+
+    def post(self, inp, res):
+        d = {k: lit(v) for k, v in inp.items()}
+        amount_form = z3.Or(d["variant"] == 1, d["variant"] == 2)
+        spec = z3.If(amount_form, z3.And(d["a"] >= 0, d["a"] % E18 == 0), True)
+        return [("amount forms valid exactly for non-negative whole amounts", (lit(res["val"]) == 1) == spec)]
+
+    def covers(self, inp, res):
+        d = {k: lit(v) for k, v in inp.items()}
+        return [("valid amount", z3.And(lit(res["val"]) == 1, d["variant"] == 1, d["a"] > 0)),
+                ("fractional amount invalid", z3.And(lit(res["val"]) == 0, d["variant"] == 2, d["a"] > 0))]
+
+    def vectors(self, rng):
+        return [{"variant": rng.randrange(5), "a": rng.choice([0, 1, -1, E18, 3 * E18, E18 // 2, -E18]), "lk": 0, "lv": 0,
+                 "uk": 1, "uv": 0} for _ in range(30)]
+
+
+JOBS["C37"] = [ValidateFungible(), ValidFungible(), ValidateNonFungible(), ValidNonFungibleSimple(),
+               GeneralValidNonFungible(), GeneralValidateNonFungible()]
